@@ -36,10 +36,10 @@ def run_irjson_mc(chk, sc, schema_path, max_fields):
         cfg = os.path.join(d, "irmc.cfg")
         write_cfg(cfg, constants={"Variant": tla_str(variant), "MaxFields": max_fields if variant == "doc" else 2},
                   invariants=("WF", "RoundTrip", "Idempotent", "RendersSelf"))
-        return variant, run_tlc(os.path.join(d, "IRJsonMC.tla"), cfg, workers=6 if variant == "doc" else 3,
+        return variant, run_tlc(os.path.join(d, "IRJsonMC.tla"), cfg, workers=pipe_tlc.max_par(6 if variant == "doc" else 3),
                                 env={"SCHEMA_FILE": schema_path}, timeout=2400, heap="4g", coverage=(variant == "doc"))
 
-    for variant, res in run_parallel([(lambda v=v: one(v)) for v in ("doc",) + JSON_VARIANTS], nproc=3):
+    for variant, res in run_parallel([(lambda v=v: one(v)) for v in ("doc",) + JSON_VARIANTS], nproc=pipe_tlc.max_par(3)):
         chk.add_tlc(res, part="irjson-mc-" + variant)
         if variant == "doc":
             if not res.clean or not res.completed:
@@ -132,7 +132,7 @@ def run(chk, only=None):
         for i in range(cfg["gram"]):
             r = pipe_inputs.rng_for(chk.seed, "c18gram", i)
             sets.append({"name": "gram:%d" % i, "files": {"m.emb": pipe_inputs.gen_program(r)}, "main": "m.emb", "stops": []})
-        nw = min(cfg["workers"], max(2, NCPU - 2))
+        nw = pipe_tlc.max_par(min(cfg["workers"], max(2, NCPU - 2)))
         jobs = []
         outs = []
         chunk = max(1, (len(sets) + nw * 3 - 1) // (nw * 3))
@@ -150,7 +150,7 @@ def run(chk, only=None):
             step = max(1, len(picks) // cfg["cli"])
             picks = picks[chk.seed % step::step][:cfg["cli"]]
             picks.append({"name": "rejected", "files": {"m.emb": "struct Foo:\n  0 [+1]  UInt  x\n  0 [+1]  UInt  x\n"}, "main": "m.emb"})
-            cli_res.extend(run_parallel([(lambda s=s: cli_pair(sc, s["name"], s["files"], s["main"])) for s in picks], nproc=3))
+            cli_res.extend(run_parallel([(lambda s=s: cli_pair(sc, s["name"], s["files"], s["main"])) for s in picks], nproc=pipe_tlc.max_par(3)))
 
         import threading
         th = threading.Thread(target=do_cli)
@@ -193,7 +193,7 @@ def run(chk, only=None):
                             continue
                         ntop += 1
                         nacc += 1 if t.get("accepted") else 0
-                        for k in ("accepted", "rejected"):
+                        for k in ("accepted", "rejected", "front_end_crashed"):
                             t.pop(k, None)
                         recs.append((len(line), json.dumps(t)))
                     else:
@@ -230,7 +230,7 @@ def run(chk, only=None):
 
         failing = []
         total = 0
-        for res in run_parallel([(lambda i=i: one(i)) for i in range(nsh)], nproc=nsh):
+        for res in run_parallel([(lambda i=i: one(i)) for i in range(nsh)], nproc=pipe_tlc.max_par(nsh)):
             if res is None:
                 continue
             chk.add_tlc(res, part="irjson-check")
